@@ -27,6 +27,8 @@ type cs struct {
 	// Dirty: the result buffers handed to the library are not fresh: every bit is set on entry (a caller that
 	// reuses its buffers)
 	Dirty bool `json:"dirty,omitempty"`
+	// Chunk > 0: the randomness sources return at most Chunk bytes per Read (short reads)
+	Chunk int `json:"chunk,omitempty"`
 }
 
 func dirtyWords(w []uint64, on bool) []uint64 {
@@ -150,7 +152,7 @@ func runIKNP(ctx *runner.Ctx, k cs, fail func(site, what string)) {
 	}
 	mal := k.Variant == "iknp-labels-mal"
 	errS, errR := memio.Run2(a, b, func(io *memio.End) error {
-		rd := drbg.New(k.Seed*2 + 1)
+		rd := drbg.NewChunked(k.Seed*2+1, k.Chunk)
 		base := idealot.New()
 		if err := base.InitSender(io); err != nil {
 			return err
@@ -181,7 +183,7 @@ func runIKNP(ctx *runner.Ctx, k cs, fail func(site, what string)) {
 		}
 		return nil
 	}, func(io *memio.End) error {
-		rd := drbg.New(k.Seed*2 + 2)
+		rd := drbg.NewChunked(k.Seed*2+2, k.Chunk)
 		base := idealot.New()
 		if err := base.InitReceiver(io); err != nil {
 			return err
@@ -318,7 +320,7 @@ func runOT(ctx *runner.Ctx, k cs, fail func(site, what string)) {
 		res[i] = dirtyLabels(make([]ot.Label, n), k.Dirty)
 	}
 	errS, errR := memio.Run2(a, b, func(io *memio.End) error {
-		o := mkOT(k.Variant, drbg.New(k.Seed*2+1), k.Shared)
+		o := mkOT(k.Variant, drbg.NewChunked(k.Seed*2+1, k.Chunk), k.Shared)
 		for i := range k.Sizes {
 			if i == 0 || k.Shared {
 				if err := o.InitSender(io); err != nil {
@@ -331,7 +333,7 @@ func runOT(ctx *runner.Ctx, k cs, fail func(site, what string)) {
 		}
 		return nil
 	}, func(io *memio.End) error {
-		o := mkOT(k.Variant, drbg.New(k.Seed*2+2), k.Shared)
+		o := mkOT(k.Variant, drbg.NewChunked(k.Seed*2+2, k.Chunk), k.Shared)
 		for i := range k.Sizes {
 			if i == 0 || k.Shared {
 				if err := o.InitReceiver(io); err != nil {
@@ -386,8 +388,8 @@ func curveByName(n string) elliptic.Curve {
 func runCOHelpers(ctx *runner.Ctx, k cs, fail func(site, what string)) {
 	curve := curveByName(k.Variant[len("co-helpers:"):])
 	n := k.Sizes[0]
-	rdS := drbg.New(k.Seed*2 + 1)
-	rdR := drbg.New(k.Seed*2 + 2)
+	rdS := drbg.NewChunked(k.Seed*2+1, k.Chunk)
+	rdR := drbg.NewChunked(k.Seed*2+2, k.Chunk)
 	wires := mkWires(drbg.New(k.Seed+77), n)
 	flags := pattern(k.Pattern, n, 0)
 	setup, err := ot.GenerateCOSenderSetup(rdS, curve)
@@ -466,6 +468,18 @@ func work(ctx *runner.Ctx) {
 		if n <= 40 || n%64 <= 1 || n%64 == 63 || n%512 <= 1 || n%512 == 511 {
 			cases = append(cases, cs{Variant: "iknp-labels-mal", Sizes: []int{n}, Pattern: "lfsr", Seed: seed, DeltaBit0: -1})
 			cases = append(cases, cs{Variant: "iknp-labels-mal", Sizes: []int{n}, Pattern: "one", Seed: seed, DeltaBit0: -1})
+		}
+	}
+	// randomness sources with short reads
+	for _, ch := range []int{1, 7, 16, 100} {
+		for _, v := range []string{"iknp-bits", "iknp-labels", "iknp-labels-mal"} {
+			cases = append(cases, cs{Variant: v, Sizes: []int{70, 9}, Pattern: "lfsr", Seed: seed, DeltaBit0: -1, Chunk: ch})
+		}
+		for _, v := range []string{"cot", "cot-mal", "rot", "co", "cot-co", "rsa"} {
+			if v == "rsa" && ch != 16 {
+				continue
+			}
+			cases = append(cases, cs{Variant: v, Sizes: []int{9}, Pattern: "lfsr", Seed: seed, Chunk: ch})
 		}
 	}
 	// result buffers that are not fresh
